@@ -21,6 +21,8 @@ impl<R> RecoveryHandle<R> {
     /// ordered and may block for an indefinite amount of time.
     pub fn into_inner(mut self) -> R {
         loop {
+            #[cfg(metrics_verif)]
+            metrics::verif::point("rec.unwrap.pre", &[]);
             match Arc::try_unwrap(self.handle) {
                 Ok(recorder) => break recorder,
                 Err(handle) => {
@@ -70,6 +72,13 @@ impl<R: Recorder + Sync + Send + 'static> RecoverableRecorder<R> {
         (wrapped, RecoveryHandle { handle: self.handle })
     }
 
+    /// Verification hook: the private `build()` without the global installation.
+    #[cfg(metrics_verif)]
+    #[doc(hidden)]
+    pub fn verif_build(self) -> (impl Recorder, RecoveryHandle<R>) {
+        self.build()
+    }
+
     /// Installs the wrapped recorder globally, returning a handle to recover it.
     ///
     /// A weakly-referenced version of the recorder is installed globally, while the original
@@ -103,24 +112,32 @@ impl<R> WeakRecorder<R> {
 
 impl<R: Recorder> Recorder for WeakRecorder<R> {
     fn describe_counter(&self, key: KeyName, unit: Option<Unit>, description: SharedString) {
+        #[cfg(metrics_verif)]
+        metrics::verif::point("rec.upgrade.pre", &[]);
         if let Some(recorder) = self.recorder.upgrade() {
             recorder.describe_counter(key, unit, description);
         }
     }
 
     fn describe_gauge(&self, key: KeyName, unit: Option<Unit>, description: SharedString) {
+        #[cfg(metrics_verif)]
+        metrics::verif::point("rec.upgrade.pre", &[]);
         if let Some(recorder) = self.recorder.upgrade() {
             recorder.describe_gauge(key, unit, description);
         }
     }
 
     fn describe_histogram(&self, key: KeyName, unit: Option<Unit>, description: SharedString) {
+        #[cfg(metrics_verif)]
+        metrics::verif::point("rec.upgrade.pre", &[]);
         if let Some(recorder) = self.recorder.upgrade() {
             recorder.describe_histogram(key, unit, description);
         }
     }
 
     fn register_counter(&self, key: &Key, metadata: &Metadata<'_>) -> Counter {
+        #[cfg(metrics_verif)]
+        metrics::verif::point("rec.upgrade.pre", &[]);
         if let Some(recorder) = self.recorder.upgrade() {
             recorder.register_counter(key, metadata)
         } else {
@@ -129,6 +146,8 @@ impl<R: Recorder> Recorder for WeakRecorder<R> {
     }
 
     fn register_gauge(&self, key: &Key, metadata: &Metadata<'_>) -> Gauge {
+        #[cfg(metrics_verif)]
+        metrics::verif::point("rec.upgrade.pre", &[]);
         if let Some(recorder) = self.recorder.upgrade() {
             recorder.register_gauge(key, metadata)
         } else {
@@ -137,6 +156,8 @@ impl<R: Recorder> Recorder for WeakRecorder<R> {
     }
 
     fn register_histogram(&self, key: &Key, metadata: &Metadata<'_>) -> Histogram {
+        #[cfg(metrics_verif)]
+        metrics::verif::point("rec.upgrade.pre", &[]);
         if let Some(recorder) = self.recorder.upgrade() {
             recorder.register_histogram(key, metadata)
         } else {
